@@ -16,7 +16,7 @@ func init() { register("C04", c04) }
 func c04(c *Ctx) {
 	r := c.R
 	r.Explanation = "Partial: the resume protocol of GetMessages has a fixed shape whose parts are each a necessary condition of 'the concatenation of what the client received is exactly its stream, nothing missing, nothing twice'. Decided: (P1) the remainder of the batch named by lastseen is sent first, sliced at exactly lastseen.Reply under the bound test that keeps the slice in range; (P2) the follow loop delivers a batch only on the false edge of 'batch older than the position' and after advancing the position to it; (P3) a batch whose id equals the position's id (the node applied it only after the request started) is never delivered whole: it is re-sliced at the position's Reply before the position is advanced; (P4) every message written to the connection passed the test 'ping or addressed to this session'; (P5) the position is built from the two parts of the lastseen parameter in order (id from the first, reply from the second); (P6) a new GetMessages request for a session cancels the older one before it is registered, and is registered before its reader goroutine starts. Not decided: what GetNext returns under concurrent Add/Delete (C08), and the window in which a node that is behind catches up past the named batch between two look-ups (a schedule)."
-	r.Rules = []string{"C04.P1 remainder of the named batch", "C04.P2 follow loop never goes backwards", "C04.P3 partially seen batch is re-sliced", "C04.P4 per-session filter", "C04.P5 position from lastseen", "C04.P6 one reader per session", "C04.P7 current stream on every call"}
+	r.Rules = []string{"C04.P1 remainder of the named batch", "C04.P2 follow loop never goes backwards", "C04.P3 partially seen batch is re-sliced", "C04.P4 per-session filter", "C04.P5 position from lastseen", "C04.P6 one reader per session", "C04.P7 current stream on every call", "C04.P8 one batch per entry"}
 	r.Assumptions = []string{"OutputStream.Get/GetNext honour their contract (C08's clauses); batches are added in increasing id order"}
 
 	gm := c.MustFunc("api.(*HTTP).getMessages")
@@ -347,30 +347,39 @@ func c04(c *Ctx) {
 				return ok && se.Sel.Name == "InterestingFor"
 			}
 			nSkip := 0
+			// the loop over the messages of one batch: the range statement whose body contains the Encode
+			var msgLoop *ast.RangeStmt
+			ast.Inspect(hgm.Body(), func(m ast.Node) bool {
+				if rs, ok := m.(*ast.RangeStmt); ok {
+					for ev := range encV {
+						if nd := hg.V[ev].Node; nd != nil && rs.Body.Pos() <= nd.Pos() && nd.End() <= rs.Body.End() {
+							msgLoop = rs
+						}
+					}
+				}
+				return true
+			})
+			loopStart := -1
+			if msgLoop != nil && len(msgLoop.Body.List) > 0 {
+				loopStart = hg.VertexOf(msgLoop.Body.List[0])
+			}
 			for _, v := range hg.V {
 				for _, e := range v.Succ {
 					if e.Cond == nil || e.Tag != nil {
 						continue
 					}
-					mentions := false
-					ast.Inspect(e.Cond, func(m ast.Node) bool {
-						if ex, ok := m.(ast.Expr); ok && isIF(ex) {
-							mentions = true
-						}
-						return true
-					})
-					if !mentions {
+					// only conditions inside the loop over the messages of a batch
+					if msgLoop == nil || !(msgLoop.Body.Pos() <= e.Cond.Pos() && e.Cond.End() <= msgLoop.Body.End()) {
 						continue
 					}
-					// does this edge lead around the Encode? (the Encode is not reachable before the next test of the filter)
-					reach := hg.Reach(e.To, func(x int) bool { return x == e.From }, nil)
-					hits := encV[e.To]
-					for ev := range encV {
-						if reach[ev] {
-							hits = true
-						}
+					// a skipping edge: the next message is reached without the Encode in between (edges that leave the
+					// function — write errors — are not skips)
+					reach := hg.Reach(e.To, func(x int) bool { return encV[x] }, nil)
+					if encV[e.To] || !(reach[loopStart] || e.To == loopStart) {
+						continue
 					}
-					if hits {
+					// … and the message has not been written yet in this iteration
+					if loopStart < 0 || !(e.From == loopStart || hg.Reach(loopStart, func(x int) bool { return encV[x] }, nil)[e.From]) {
 						continue
 					}
 					nSkip++
@@ -699,6 +708,52 @@ func c04(c *Ctx) {
 			}
 		}
 		r.Check(n >= 2, "C04.P7", gm.Name(), "stream calls found", c.P.Pos(gm.Node().Pos()), itoa(n), "no calls on the output stream in getMessages")
+	}
+	// ---------- P8: the replies of one entry form ONE batch of the output stream: the stream is keyed by the entry's id, so a
+	// second Add for the same entry overwrites the first; sendMessages calls Add exactly once, outside any loop, with the
+	// slice that received every reply message
+	if sm := c.P.Func("main.sendMessages"); sm != nil && sm.Body() != nil {
+		si := sm.Info()
+		var adds []*ast.CallExpr
+		for _, call := range astx.Calls(sm.Body(), true) {
+			if fn := astx.Callee(si, call); fn != nil && isFunc(fn, "outputstream", "(*OutputStream).Add") {
+				adds = append(adds, call)
+			}
+		}
+		inLoop := false
+		for _, call := range adds {
+			ast.Inspect(sm.Body(), func(m ast.Node) bool {
+				switch l := m.(type) {
+				case *ast.ForStmt:
+					if l.Body.Pos() <= call.Pos() && call.End() <= l.Body.End() {
+						inLoop = true
+					}
+				case *ast.RangeStmt:
+					if l.Body.Pos() <= call.Pos() && call.End() <= l.Body.End() {
+						inLoop = true
+					}
+				}
+				return true
+			})
+		}
+		okWhole := false
+		if len(adds) == 1 && len(adds[0].Args) == 1 {
+			// the argument is a local made with the length of the reply's messages (not a sub-slice)
+			if id, ok := ast.Unparen(adds[0].Args[0]).(*ast.Ident); ok {
+				for _, d := range defsOf(si, sm.Node(), astx.Obj(si, id)) {
+					if mk, ok := ast.Unparen(d).(*ast.CallExpr); d != nil && ok && astx.Builtin(si, mk) == "make" {
+						okWhole = true
+					}
+				}
+				if len(defsOf(si, sm.Node(), astx.Obj(si, id))) != 1 {
+					okWhole = false // re-sliced / reassigned
+				}
+			}
+		}
+		r.Check(len(adds) == 1 && !inLoop && okWhole, "C04.P8", sm.Name(), "the replies of an entry are stored as one batch", c.P.Pos(sm.Node().Pos()), "one OutputStream.Add, outside loops, of the whole converted slice",
+			"the replies of one entry are handed to the output stream in several Add calls (or only partly): batches are keyed by the entry's id, so each further chunk overwrites the previous one and the overwritten replies can never be delivered")
+	} else {
+		r.Break("anchor function main.sendMessages not found in /repo")
 	}
 	r.Floor("C04.P1", 5)
 	r.Floor("C04.P2", 3)
